@@ -48,6 +48,42 @@ def run(model, col, tier):
     col.note("object-graph classes", len(classes))
     col.floor("R17.1", "classes of the module object graph", len(classes), 40)
     # ---------------- R17.1 ------------------------------------------------------
+    # pickle stores an object's instance state only, and only if every value in it can be pickled
+    from ..state import is_mutable_literal as _iml
+
+    UNPICKLABLE_CALLS = {"MappingProxyType", "iter", "map", "filter", "zip", "open", "Lock", "RLock", "ref", "proxy", "WeakValueDictionary", "WeakKeyDictionary", "WeakSet", "BytesIO", "StringIO"}
+    nfields = 0
+    for ci in classes:
+        for aname, aval in ci.class_attrs.items():
+            if not _iml(aval):
+                continue
+            muts = []
+            for m in ci.methods.values():
+                for n in ast.walk(m):
+                    if isinstance(n, ast.Attribute) and n.attr == aname and isinstance(n.value, ast.Name) and n.value.id == (m.args.args[0].arg if m.args.args else "self"):
+                        muts.append(m.name)
+            rebound = any(isinstance(n, ast.Assign) and isinstance(n.targets[0], ast.Attribute) and n.targets[0].attr == aname for m in ci.methods.values() if m.name == "__init__" for n in ast.walk(m))
+            col.check(rebound or not muts, "R17.1", f"{ci.file}::{ci.name}.{aname} is instance state", "every container an instance fills is created in __init__",
+                      f"`{aname}` is a class-level container used through self in {sorted(set(muts))} and never re-bound in __init__: it is not part of the instance state pickle stores, "
+                      "so a stored module reloads without it (and all instances in a process share it)", ci.file, aval)
+        for m in ci.methods.values():
+            for n in ast.walk(m):
+                if isinstance(n, (ast.Assign, ast.AnnAssign)) and n.value is not None:
+                    tg = n.targets[0] if isinstance(n, ast.Assign) else n.target
+                    if isinstance(tg, ast.Attribute) and isinstance(tg.value, ast.Name) and m.args.args and tg.value.id == m.args.args[0].arg:
+                        nfields += 1
+                        v = n.value
+                        why = None
+                        if isinstance(v, (ast.Lambda, ast.GeneratorExp)):
+                            why = "a lambda / generator"
+                        elif isinstance(v, ast.Call) and last_attr(v) in UNPICKLABLE_CALLS:
+                            why = f"the result of {last_attr(v)}(...)"
+                        elif isinstance(v, ast.Call) and isinstance(v.func, ast.Attribute) and v.func.attr in ("keys", "values", "items") and not v.args:
+                            why = "a dictionary view"
+                        if why:
+                            col.bad("R17.1", f"{ci.file}::{ci.name}.{m.name} stores {unparse(tg)}", f"`{' '.join(unparse(n).split())[:70]}` stores {why} in the object: pickle.dump raises for it, "
+                                    "so every module that contains such an object can no longer be stored", ci.file, n)
+    col.floor("R17.1", "field stores in the IR classes", nfields, 60)
     for ci in classes:
         if ci.name in ("InstructionPrinter", "Linker", "ModuleLoader", "FilesystemModuleLoader", "MemoryModuleLoader", "Program"):
             continue
